@@ -76,6 +76,9 @@ type c14Op struct {
 	Fail       bool    `json:"fail,omitempty"`
 	Orders     [][]int `json:"orders,omitempty"`
 	Order      []int   `json:"order,omitempty"`
+	// timing: real sleeping of one retry loop
+	DNs    int64   `json:"dNs,omitempty"`
+	GapsNs []int64 `json:"gapsNs,omitempty"`
 }
 
 var c14Subs = []c14Sub{
@@ -522,7 +525,7 @@ func (h *c14H) receive(g *c14Gen, s int, ev Event) (bool, error) {
 }
 
 func (h *c14H) waitFor(what string, pred func() bool) bool {
-	deadline := time.Now().Add(15 * time.Second)
+	deadline := time.Now().Add(8 * time.Second)
 	for i := 0; ; i++ {
 		h.mu.Lock()
 		ok := pred()
@@ -850,6 +853,8 @@ func (h *c14H) exec(op *c14Op) string {
 			status = to
 		}
 		return h.observe(status, from)
+	case "timing":
+		return h.timing(op)
 	case "end":
 		// nothing may still be on its way: give unexpected goroutines a moment to show up
 		time.Sleep(300 * time.Microsecond)
@@ -858,6 +863,56 @@ func (h *c14H) exec(op *c14Op) string {
 	return "bad-op:" + op.Op
 }
 
+
+// timing runs ONE real retry loop with real sleeping (plain bbolt store, no stepping): a receiver that never completes
+// records when it is called; the gaps between consecutive attempts of the loop are handed to the model, which checks
+// them against its back-off function (lower bounds only: a sleep is never shorter than asked for).
+func (h *c14H) timing(op *c14Op) string {
+	const want = 8
+	if len(h.pool) == 0 {
+		return "timing|no-pool"
+	}
+	path := filepath.Join(h.dir, fmt.Sprintf("timing%d.db", h.nDB))
+	h.nDB++
+	db, err := bbolt.CreateBBoltStore(path, stoabs.WithNoSync())
+	if err != nil {
+		return "timing|err:" + err.Error()
+	}
+	defer os.Remove(path)
+	defer db.Close(context.Background())
+	var mu sync.Mutex
+	var times []time.Time
+	n := NewNotifier("timing", func(ev Event) (bool, error) {
+		mu.Lock()
+		times = append(times, time.Now())
+		mu.Unlock()
+		return false, nil
+	}, WithPersistency(db), WithRetryDelay(time.Duration(op.DNs)))
+	defer n.Close()
+	ev := Event{Type: TransactionEventType, Hash: h.pool[0].tx.Ref(), Transaction: h.pool[0].tx}
+	if err := db.Write(context.Background(), func(tx stoabs.WriteTx) error { return n.Save(tx, ev) }); err != nil {
+		return "timing|err:" + err.Error()
+	}
+	n.Notify(ev)
+	deadline := time.Now().Add(20 * time.Second)
+	for {
+		mu.Lock()
+		k := len(times)
+		mu.Unlock()
+		if k >= want+2 || time.Now().After(deadline) {
+			break
+		}
+		time.Sleep(200 * time.Microsecond)
+	}
+	mu.Lock()
+	defer mu.Unlock()
+	op.GapsNs = nil
+	// times[0]: Notify itself; times[1]: first attempt of retry.Do (no sleep before it); then one sleep per attempt
+	for i := 2; i < len(times) && i < want+2; i++ {
+		op.GapsNs = append(op.GapsNs, int64(times[i].Sub(times[i-1])))
+	}
+	return fmt.Sprintf("timing|n=%d", len(op.GapsNs))
+}
 
 // ---------------------------------------------------------------- log hook: "Retry failed" = the retry goroutine ended with an error
 
@@ -1329,6 +1384,13 @@ func TestVerifC14(t *testing.T) {
 		return
 	}
 	r.emit(&c14Op{Op: "config", Subs: c14Subs, Txs: c14DefaultAttrs(r.rng)})
+	nTiming := 1
+	if os.Getenv("VERIF_TIER") == "thorough" {
+		nTiming = 4
+	}
+	for i := 0; i < nTiming; i++ {
+		r.emit(&c14Op{Op: "timing", DNs: int64(50000 << uint(i))})
+	}
 	if cd := os.Getenv("VERIF_CORPUS"); cd != "" {
 		files, _ := filepath.Glob(filepath.Join(cd, "*.jsonl"))
 		sort.Strings(files)
